@@ -110,9 +110,9 @@ class CallMixin:
             e = T(("Opt", m.sort[2]), f"(select {m.s} {k.s})")
             return T(d.sort, f"(ite {is_some(e).s} {unopt(e).s} {d.s})")
         if name == "visited":
-            return st.env[f"$vis{n.args[0].value}"]
+            return st.env[f"$vis{n.args[0].value}" if n.args else "$viscur"]
         if name == "index":
-            return st.env[f"$idx{n.args[0].value}"]
+            return st.env[f"$idx{n.args[0].value}" if n.args else "$idxcur"]
         if name == "smt":
             fmt = n.args[0].value
             kw = {k.arg: self.ev(k.value, st, old) for k in n.keywords}
@@ -458,6 +458,13 @@ class CallMixin:
                     return unopt(e)
                 raise RaiseEx("KeyError", None, n.lineno)
         if isinstance(s, tuple) and s[0] == "Set":
+            if at == "update" and len(n.args) == 1:
+                x = self.ev(n.args[0], st, old)
+                if isinstance(x, T) and x.sort == s:
+                    r = self.opaque("union", s)
+                    st.pc.append(f"(forall ((|q_u| {sort_smt(s[1])})) (= (select {r.s} |q_u|) (or (select {recv.s} |q_u|) (select {x.s} |q_u|))))")
+                    if self.store_back(f.value, r, st):
+                        return T(NONE, "none")
             if at == "add" and len(n.args) == 1:
                 x = self.coerce(self.ev(n.args[0], st, old), s[1], "add")
                 if self.store_back(f.value, T(s, f"(store {recv.s} {x.s} true)"), st):
@@ -697,8 +704,20 @@ class CallMixin:
                 for e in k.get("exc_ensures", []):
                     st.pc.append(self.spec(e, post, oldb).s)
                 raise RaiseEx(exc, None, n.lineno)
+        lit_lens = [a.s.count("(seq.unit ") for a in b.env.values() if isinstance(a, T) and isinstance(a.sort, tuple) and a.sort[0] == "Seq" and a.s.startswith(("(seq.unit", "(seq.++ (seq.unit"))]
         for e in k.get("ensures", []):
-            st.pc.append(self.spec(e, post, oldb).s)
+            h = self.spec(e, post, oldb).s
+            st.pc.append(h)
+            if lit_lens and h.startswith("(forall ((|q_"):
+                # arguments are literal lists: add the instances of index-quantified postconditions at their positions
+                try:
+                    from .solve import sx_parse, sx_show, sx_subst
+                    ex = sx_parse(h)
+                    if len(ex[1]) == 1 and ex[1][0][1] == "Int":
+                        for i_ in range(min(max(lit_lens), 4)):
+                            st.pc.append(sx_show(sx_subst(ex[2], ex[1][0][0], str(i_))))
+                except Exception:
+                    pass
         gu = self.cur_contract.get("after_call", {})
         gu = gu.get((q, cnt)) or gu.get((q, "*"))
         if gu:
